@@ -58,6 +58,11 @@ C07_EchoingClientSurvives(r) ==
   LET h == r.obs IN
   (\A i \in KAs(h) : EchoedInTime(h, i) \/ (Infos(h) # {} /\ RoutingEnd(r) < h[i].t + P))
      => (r.result # "MissedKeepAlive" /\ Timeouts(h) = {})
+\* ... whatever else it sends that the configuration phase allows (its settings once more, plugin messages): the connection of a client
+\* that was in time with every echo ends with the Transfer, not with an error
+C07_EchoingClientRouted(r) ==
+  LET h == r.obs  T == Idx(h, LAMBDA x : IsTx(x, "Transfer")) IN
+  (Ended(r) /\ Infos(h) # {} /\ \A i \in KAs(h) : EchoedInTime(h, i) \/ RoutingEnd(r) < h[i].t + P) => (r.result = "Ok" /\ T # {})
 \* ... and receives its Transfer as soon as routing completes
 C07_TransferWhenRoutingCompletes(r) ==
   LET h == r.obs  T == Idx(h, LAMBDA x : IsTx(x, "Transfer")) IN
@@ -79,11 +84,12 @@ C07_TimeoutOnlyIfUnechoed(r) ==
   LET h == r.obs IN
   \A d \in Timeouts(h) : \E i \in KAs(h) : i < d /\ ~(\E e \in Echoes(h) : i < e /\ e < d /\ h[e].t < h[d].t /\ ~(\E j \in KAs(h) : i < j /\ j < e))
 
-C07Names == {"C07_KeepAliveEveryP", "C07_OneOutstanding", "C07_OnlyWhileWaiting", "C07_EchoingClientSurvives",
+C07Names == {"C07_KeepAliveEveryP", "C07_OneOutstanding", "C07_OnlyWhileWaiting", "C07_EchoingClientSurvives", "C07_EchoingClientRouted",
              "C07_TransferWhenRoutingCompletes", "C07_TransferDelivered", "C07_SilentClientTimedOut", "C07_TimeoutOnlyIfUnechoed"}
 C07Clause(c, r) ==
   CASE c = "C07_KeepAliveEveryP" -> C07_KeepAliveEveryP(r) [] c = "C07_OneOutstanding" -> C07_OneOutstanding(r)
     [] c = "C07_OnlyWhileWaiting" -> C07_OnlyWhileWaiting(r) [] c = "C07_EchoingClientSurvives" -> C07_EchoingClientSurvives(r)
+    [] c = "C07_EchoingClientRouted" -> C07_EchoingClientRouted(r)
     [] c = "C07_TransferWhenRoutingCompletes" -> C07_TransferWhenRoutingCompletes(r) [] c = "C07_TransferDelivered" -> C07_TransferDelivered(r)
     [] c = "C07_SilentClientTimedOut" -> C07_SilentClientTimedOut(r) [] c = "C07_TimeoutOnlyIfUnechoed" -> C07_TimeoutOnlyIfUnechoed(r)
     [] OTHER -> FALSE
